@@ -273,4 +273,145 @@ theorem next_mk (s : List Char) (g : Nat) (ln col : Int) (hg : s.length + 1 ≤ 
       AlgoRun.ascIsNumber, AlgoRun.ascParseNumber]
   · simp [h0, hlp, hrp, hsc, hbar, hl, hcl, hp, Py.Text.eq, Py.finishX, Py.bind, AlgoRun.ascIsNumber]
 
+/-! ### the model's `lex` is the iteration of `stepOf` -/
+
+theorem takeWord_head (s : List Char) (c : Char) (w : List Char) (h : (takeWord s).1 = c :: w) : isDelim c = false := by
+  cases s with
+  | nil => simp [takeWord] at h
+  | cons d t =>
+    by_cases hd : isDelim d
+    · simp [takeWord, hd] at h
+    · simp [takeWord, hd] at h
+      rw [← h.1]; simpa using hd
+
+theorem takeWord_nil (s : List Char) (h : (takeWord s).1 = []) : (takeWord s).2 = s ∧ ∀ c t, s = c :: t → isDelim c = true := by
+  cases s with
+  | nil => simp [takeWord]
+  | cons d t =>
+    by_cases hd : isDelim d
+    · simp [takeWord, hd]
+    · simp [takeWord, hd] at h
+
+theorem skipSpaces_head (s : List Char) : ∀ c t, skipSpaces s = c :: t → isSpace c = false := by
+  induction s with
+  | nil => intro c t h; simp [skipSpaces] at h
+  | cons d u ih =>
+    intro c t h
+    by_cases hd : isSpace d
+    · simp [skipSpaces, hd] at h; exact ih c t h
+    · simp [skipSpaces, hd] at h
+      rw [← h.1]; simpa using hd
+
+theorem lex_succ (f : Nat) (s : List Char) :
+    lex (f + 1) s = match stepOf s with
+      | none => []
+      | some (tk, s') => tk :: lex f s' := by
+  rw [lex.eq_2]
+  unfold stepOf wordOf
+  cases hw : (takeWord (skipSpaces s)).1 with
+  | cons c w =>
+    have hd := takeWord_head _ c w hw
+    have h1 : c ≠ '(' := by rintro rfl; simp [isDelim] at hd
+    have h2 : c ≠ ')' := by rintro rfl; simp [isDelim] at hd
+    have h3 : c ≠ ';' := by rintro rfl; simp [isDelim] at hd
+    have h4 : c ≠ '|' := by rintro rfl; simp [isDelim] at hd
+    simp [hw, h1, h2, h3, h4]
+  | nil =>
+    obtain ⟨hr, hdel⟩ := takeWord_nil _ hw
+    cases hs : skipSpaces s with
+    | nil => simp [takeWord]
+    | cons c t =>
+      have hsp := skipSpaces_head s c t hs
+      have hdl := hdel c t hs
+      rw [hs] at hr hw
+      simp only [hs, hr, hw]
+      simp only [isDelim, hsp, Bool.false_or, Bool.or_eq_true, decide_eq_true_eq] at hdl
+      rcases hdl with ((rfl | rfl) | rfl) | rfl <;> simp
+
+theorem wordOf_length (s : List Char) : (wordOf s).1 ≠ [] → (wordOf s).2.length < s.length := by
+  unfold wordOf
+  have h1 := skipSpaces_length s
+  have h2 := takeWord_length (skipSpaces s)
+  by_cases hw : (takeWord (skipSpaces s)).1 = []
+  · cases hr : (takeWord (skipSpaces s)).2 with
+    | nil => simp [hw, hr]
+    | cons c t => simp [hw, hr] at h2 ⊢; omega
+  · intro _
+    have : 0 < (takeWord (skipSpaces s)).1.length := List.length_pos_iff.mpr hw
+    simp [hw]; omega
+
+theorem stepOf_length (s : List Char) (tk : Tok) (s' : List Char) (h : stepOf s = some (tk, s')) : s'.length < s.length := by
+  unfold stepOf at h
+  by_cases h0 : (wordOf s).1 = []
+  · simp [h0] at h
+  have hl := wordOf_length s h0
+  have ht := takeLine_length (wordOf s).2
+  simp only [h0, if_false] at h
+  split at h
+  · simp at h; obtain ⟨_, rfl⟩ := h; omega
+  split at h
+  · simp at h; obtain ⟨_, rfl⟩ := h; omega
+  split at h
+  · simp at h; obtain ⟨_, rfl⟩ := h; omega
+  split at h
+  · simp at h; obtain ⟨_, rfl⟩ := h; omega
+  · simp at h; obtain ⟨_, rfl⟩ := h; omega
+
+/-! ### the iteration: all tokens -/
+
+/-- the model's tokens up to the first lexer failure (`.bad`), and whether the stream ended without one -/
+def goodPrefix : List Tok → List Tok × Bool
+  | [] => ([], true)
+  | t :: ts => if t = .bad then ([], false) else (t :: (goodPrefix ts).1, (goodPrefix ts).2)
+
+theorem goodPrefix_noBad (toks : List Tok) (h : RefineAscParse.NoBad toks) : goodPrefix toks = (toks, true) := by
+  induction toks with
+  | nil => rfl
+  | cons t ts ih =>
+    have ht : t ≠ .bad := h t (by simp)
+    simp [goodPrefix, ht, ih h.tail]
+
+theorem goodPrefix_snd (toks : List Tok) : (goodPrefix toks).2 = false ↔ Tok.bad ∈ toks := by
+  induction toks with
+  | nil => simp [goodPrefix]
+  | cons t ts ih =>
+    by_cases ht : t = .bad
+    · simp [goodPrefix, ht]
+    · simp [goodPrefix, ht, ih, Ne.symm ht]
+
+theorem toToken_tokAt (tk : Tok) (l c : Int) : AlgoRun.LexToken.toToken (tokAt encF tk l c) = RefineAscParse.enc encF tk := rfl
+
+/-- the iteration protocol on `__next__` as translated yields exactly the model's tokens up to the first `.bad` -/
+theorem lex_loop (g : Nat) : ∀ (f : Nat) (s : List Char) (ln col : Int), s.length + 1 ≤ f → s.length + 1 ≤ g →
+    (AlgoRun.ascLexLoop AlgoRun.ascIsNumber (AlgoRun.ascParseNumber encF) g f (mk s ln col)).1.map AlgoRun.LexToken.toToken =
+      (goodPrefix (lex f s)).1.map (RefineAscParse.enc encF) ∧
+    (AlgoRun.ascLexLoop AlgoRun.ascIsNumber (AlgoRun.ascParseNumber encF) g f (mk s ln col)).2 = (goodPrefix (lex f s)).2 := by
+  intro f
+  induction f with
+  | zero => intro s ln col hf; omega
+  | succ f ih =>
+    intro s ln col hf hg
+    obtain ⟨l1, c1, l, c, hn⟩ := next_mk encF s g ln col hg
+    rw [AlgoRun.ascLexLoop, hn, lex_succ]
+    cases hs : stepOf s with
+    | none => simp [goodPrefix, stopIteration]
+    | some p =>
+      obtain ⟨tk, s'⟩ := p
+      have hlen := stepOf_length s tk s' hs
+      by_cases hb : tk = .bad
+      · simp [hb, goodPrefix]
+      · obtain ⟨i1, i2⟩ := ih s' l1 c1 (by omega) (by omega)
+        simp [hb, goodPrefix, i1, i2, toToken_tokAt]
+
+/-- `Lexer(io.StringIO(text))` as translated -/
+theorem init_mk (s : List Char) : AlgoRun.ascLexer s = some (mk s 1 1) := by
+  cases s <;> simp [AlgoRun.ascLexer, lexer_init, lexer_init.body, Py.seq, Py.finish, mk, Py.Text.read1, Py.Text.read1L]
+
+theorem lexAll_eq (s : List Char) :
+    (AlgoRun.ascLexAll encF s).1.map AlgoRun.LexToken.toToken = (goodPrefix (tokens s)).1.map (RefineAscParse.enc encF) ∧
+    (AlgoRun.ascLexAll encF s).2 = (goodPrefix (tokens s)).2 := by
+  unfold AlgoRun.ascLexAll tokens
+  rw [init_mk]
+  exact lex_loop encF (s.length + 1) (s.length + 1) s 1 1 (by omega) (by omega)
+
 end RefineAscLex
